@@ -169,6 +169,32 @@ func (oa *ordAnalysis) loop(fn *ssa.Function, h *ssa.BasicBlock, vars []ssa.Valu
 			problems = append(problems, "variable "+phi.Comment+" carried around the loop: "+why)
 		}
 	}
+	// the position inside an unordered slice carries no meaning: the range counter may only address the element
+	if !isMap {
+		for _, in := range h.Instrs {
+			phi, ok := in.(*ssa.Phi)
+			if !ok || phi.Comment != "rangeindex" {
+				continue
+			}
+			for _, ref := range *phi.Referrers() {
+				inc, ok := ref.(*ssa.BinOp)
+				if !ok {
+					continue
+				}
+				for _, r2 := range *inc.Referrers() {
+					switch y := r2.(type) {
+					case *ssa.IndexAddr, *ssa.Phi, *ssa.DebugRef:
+					case *ssa.BinOp:
+						if y.Block() != h {
+							problems = append(problems, "the position of an element in the unordered slice is used at "+w.IPos(y))
+						}
+					default:
+						problems = append(problems, "the position of an element in the unordered slice is used at "+w.IPos(r2))
+					}
+				}
+			}
+		}
+	}
 	// instructions of the body
 	for b := range loop {
 		for _, in := range b.Instrs {
@@ -851,7 +877,7 @@ func (oa *ordAnalysis) value(fn *ssa.Function, v ssa.Value, origin string) {
 			ru.Bad(key, w.IPos(x), origin+": unordered slice stored to "+x.Addr.String())
 		case *ssa.IndexAddr:
 			// element access: allowed inside a range loop over the slice (→ unordered loop) or index 0 of a singleton
-			if h := rangeHeaderFor(x, v); h != nil {
+			if h := rangeHeaderFor(x, v); h != nil && isRangeCounter(x.Index, h) {
 				el := rangeElem(h)
 				oa.loop(fn, h, []ssa.Value{el}, origin+" → range over the unordered slice at "+w.IPos(x), false)
 				continue
@@ -1095,4 +1121,14 @@ func implementsErrorOrStringer(t types.Type) bool {
 		}
 	}
 	return false
+}
+
+// isRangeCounter: idx is the counter (phi+1) of the rangeindex loop with header h.
+func isRangeCounter(idx ssa.Value, h *ssa.BasicBlock) bool {
+	bo, ok := idx.(*ssa.BinOp)
+	if !ok || bo.Op != token.ADD {
+		return false
+	}
+	phi, ok := bo.X.(*ssa.Phi)
+	return ok && phi.Block() == h && phi.Comment == "rangeindex"
 }
